@@ -94,7 +94,9 @@ func (ca *CertificateAuthority) PrimarySigningKeyVersion(context.Context) (strin
 // object should be the same type as NewMutation returns.
 func (ca *CertificateAuthority) Finalize(ctx context.Context, mut styp.CertificateAuthorityMutation) error {
 	m, ok := mut.(*Mutation)
-	if !ok || len(m.replaced) == 0 || output.AllowOverwrite(ctx) {
+	// With --keep_going the caller carries on as if the mutation had been applied (rotation goes on
+	// to destroy the previous key), so the replacement has to stand in that case too.
+	if !ok || len(m.replaced) == 0 || output.AllowOverwrite(ctx) || output.AllowRecoverableError(ctx) {
 		return nil
 	}
 	// Like the storage-backed authority, never replace an existing certificate without overwrite
@@ -111,9 +113,6 @@ func (ca *CertificateAuthority) Finalize(ctx context.Context, mut styp.Certifica
 	}
 	if m.previousPrimarySigningKey != nil {
 		ca.PrimarySigningKey = *m.previousPrimarySigningKey
-	}
-	if output.AllowRecoverableError(ctx) {
-		return nil
 	}
 	sort.Strings(names)
 	return fmt.Errorf("--overwrite=false disallowed replacing certificates of %v", names)
